@@ -291,7 +291,17 @@ def real_config_headers(variants):
     try:
         src = os.path.join(tmp, "src")
         os.makedirs(src)
-        files = subprocess.run(["git", "-C", REPO, "ls-files"], stdout=subprocess.PIPE, check=True).stdout.decode().split("\n")
+        lf = subprocess.run(["git", "-C", REPO, "ls-files"], stdout=subprocess.PIPE, stderr=subprocess.PIPE)
+        if lf.returncode == 0 and lf.stdout.strip():
+            files = lf.stdout.decode().split("\n")
+        else:  # not a git checkout: take the source files of the tree as they are
+            files = []
+            for root, dirs, fs in os.walk(REPO):
+                dirs[:] = [d for d in dirs if d not in (".git", ".libs", ".deps", "autom4te.cache", "_build")]
+                for f in fs:
+                    if f.endswith((".o", ".lo", ".la", ".a", ".so", ".log", ".trs")) or f in ("config.status", "libtool", "config.h", "m4ri_config.h", "stamp-h1", "Makefile"):
+                        continue
+                    files.append(os.path.relpath(os.path.join(root, f), REPO))
         for f in files:
             if not f:
                 continue
